@@ -64,6 +64,7 @@ type World struct {
 	streamsEx int // stream handlers returned
 	pushN     int // messages a stream handler pushes before echoing
 	streamLog map[byte][]string
+	keep      bool        // handlers retain their argument slices
 	streamEnd [][3]string // per ended handler: error of the blocked read, of a later write, of a later read
 }
 
@@ -101,6 +102,10 @@ func (w *World) handle(in []byte, res *[]byte) error {
 	tag, flags := in[0], in[1]
 	w.execs[tag]++
 	w.seenArgs[tag] = append([]byte(nil), in...)
+	if w.keep {
+		w.kept = append(w.kept, in)
+		w.keptSum = append(w.keptSum, digest(in))
+	}
 	w.startSeq = append(w.startSeq, tag)
 	w.active++
 	if w.active > 1 {
